@@ -4,5 +4,6 @@ pub mod ast;
 pub mod exec;
 pub mod gen;
 pub mod interp;
+pub mod mutate;
 pub mod print;
 pub mod ty;
